@@ -198,6 +198,8 @@ def direction_B(ctx, thorough):
     for al in ALIGNS:
         tid += 1
         plan.append((tid, "storage", al, False))
+        tid += 1
+        plan.append((tid, "storage-snapshots", al, False))   # every storage holds a chain of snapshot images; several opens on one HDD object
     # layer chains (VHDX partially-present blocks with per-sector bitmaps, QCOW2 sub-cluster bitmaps, VDI parents): the
     # buffered layer's aligned offsets then start at every bit position of the bitmap bytes
     c07 = importlib.import_module("props.c07")
@@ -223,8 +225,8 @@ def direction_B(ctx, thorough):
             t = chain_makers[fmt](tid, rng, 60 if thorough else 40, align=al)
             t["align"], t["many"] = al, False
             return t
-        if fmt == "storage":
-            t = c10.make_trace_hdd(tid, rng, 60 if thorough else 30, align=al)
+        if fmt in ("storage", "storage-snapshots"):
+            t = c10.make_trace_hdd(tid, rng, 60 if thorough else 30, align=al, deep=(fmt == "storage-snapshots"))
             t["align"], t["many"] = al, False
             return t
         if fmt == "qcow2-datafile":
